@@ -45,7 +45,7 @@ RULE = ("universe: quick 4 atoms x 2 fluents (each absent / 0 / 1.5 / -2 / 0.000
         "0.3 / 0.30000000000000004 / 1000000.0000001 / 1000000.0000002; "
         "routes: problem parser (2 init orders), TrajectoryParser.parse_state, copy, copy of copy, successor by one action "
         "from a neighbouring state (add-fact or numeric update; delete-fact, which can leave an empty fact group); every ordered pair of states x every pair of routes "
-        "compared with ==; every route object serialized and re-read; every copy mutated both ways. one case = one "
+        "compared with ==; every route object serialized and re-read; every copy mutated both ways (the changed side re-serialized); once per run: -0.0, states at the step boundaries of a parsed trajectory changed in place, states assembled through the public constructors, successors re-read after the operator was applied again, one TrajectoryParser after a rejected state, copies of literals of both signs. objects a - t1, b - t2 (t2 below t1). one case = one "
         "left-hand state. non-trivial = a pair of distinct states")
 ASSUMPTIONS = ["state identity = set of ground facts + map ground fluent -> value; the ':init'/':state' tag is not part of it",
                "-0.0 (numerically equal to 0, printed differently) is explored as one extra state reached by (assign (f) (* (f) -1))"]
